@@ -35,7 +35,7 @@ def log_uniform(lo, hi):
 
 @st.composite
 def parents_vec(draw, nb):
-    shape = draw(st.sampled_from(["free", "free", "chain", "star", "binary", "comb"]))
+    shape = draw(st.sampled_from(["free", "free", "free", "crossed", "chain", "star", "binary", "comb"]))
     if nb == 1:
         return [-1]
     if shape == "chain":
@@ -47,6 +47,10 @@ def parents_vec(draw, nb):
     if shape == "comb":
         # a spine 0-1-3-5.. with a side branch at every spine node
         return [-1] + [max(0, b - 2 + (b % 2)) if b > 1 else 0 for b in range(1, nb)]
+    if shape == "crossed" and nb >= 5:
+        # children of a later-numbered branch are listed BEFORE those of an earlier-numbered one
+        # (parent indices do not first appear in ascending order), then a free continuation
+        return [-1, 0, 0, 2, 1] + [draw(st.integers(0, b - 1)) for b in range(5, nb)]
     return [-1] + [draw(st.integers(0, b - 1)) for b in range(1, nb)]
 
 
@@ -191,6 +195,14 @@ def structure_classes(spec):
         cls.append("branched")
     if len({n for c in cells for n in c["ncomp"]}) > 1:
         cls.append("heterogeneous-ncomp")
+    for c in cells:
+        firsts = []
+        for p in c["parents"][1:]:
+            if p not in firsts:
+                firsts.append(p)
+        if firsts != sorted(firsts):
+            cls.append("parents first appear out of order")
+            break
     return cls
 
 
